@@ -9,7 +9,10 @@
 //! channel enqueue, through the user-overridable `Message::box_message` (no hook needed).
 //!
 //! stdin: one scenario per line, actions separated by ';'
-//!     do <call> | start <call> | rel <n> | run
+//!     do <call> | start <call> | rel <n> | run | ps <n>
+//!     (ps <n>: the target actor's post_stop releases the n-th started thread and waits for it, i.e.
+//!      a sender parked in box_message completes while the actor is between its loop exit and the
+//!      drop of its ports; declared once, anywhere in the line)
 //!     call := S(<pid>,<flags>,[<call>,...],[<call>,...]) | D | T | K
 //!             flags: any of w (wrong type) b (box_message fails) g (gate) f (handler fails), or -;
 //!             a digit selects the entry point the send goes through (default 0):
@@ -17,6 +20,10 @@
 //!               2 ActorRef::<T>::from(cell).cast   3 ActorRef::<T>::from(cell).call(.., None)
 //!               4 ActorRef::<T>::from(cell).call(.., Some(timeout))   5 rpc::cast(&cell, ..)
 //!               6 rpc::call(&cell, .., None)
+//!               7 ActorRef::<T>::from(cell).call_and_forward(.., &forward_to, .., None)
+//!               8 rpc::call_and_forward(&cell, .., forward_to_cell, .., None)
+//!               9 rpc::multi_call(&[ActorRef::<T>::from(cell)], .., None)
+//!             (7-9 spawn tasks: on a thread without a runtime context they fall back to 3)
 //!             (a call is polled once: Pending / Ok(_) = the request was accepted = ROk)
 //!             first list: calls made from inside box_message; second: calls made by the handler
 //!             D = drain(), T = stop(None), K = kill()
@@ -174,7 +181,13 @@ struct Gate {
 
 struct Ctx {
     cell: OnceLock<ActorCell>,
+    /// reply-forwarding target for call_and_forward (the supervisor; it ignores `()` messages)
+    fwd: OnceLock<ActorRef<()>>,
     log: Mutex<Vec<String>>,
+    started: Mutex<Vec<Started>>,
+    /// start-order indices of the threads post_stop releases
+    ps: Mutex<Vec<usize>>,
+    hang: std::sync::atomic::AtomicBool,
 }
 impl Ctx {
     fn ev(&self, s: String) {
@@ -182,6 +195,33 @@ impl Ctx {
     }
     fn cell(&self) -> &ActorCell {
         self.cell.get().expect("actor cell")
+    }
+    fn new() -> Arc<Ctx> {
+        Arc::new(Ctx {
+            cell: OnceLock::new(),
+            fwd: OnceLock::new(),
+            log: Mutex::new(Vec::new()),
+            started: Mutex::new(Vec::new()),
+            ps: Mutex::new(Vec::new()),
+            hang: std::sync::atomic::AtomicBool::new(false),
+        })
+    }
+    /// release the n-th started thread (if still parked) and wait until its send has returned
+    fn release(&self, n: usize) {
+        let mut st = self.started.lock().unwrap();
+        if let Some(t) = st.get_mut(n) {
+            if t.parked {
+                t.parked = false;
+                let _ = t.release.send(());
+                match t.evt.recv_timeout(Duration::from_secs(30)) {
+                    Ok(Evt::Done) => {}
+                    _ => self.hang.store(true, std::sync::atomic::Ordering::SeqCst),
+                }
+            }
+            if let Some(h) = t.handle.take() {
+                let _ = h.join();
+            }
+        }
     }
 }
 
@@ -245,13 +285,43 @@ fn call_timeout() -> Option<Duration> {
 
 /// send `m` through the selected public entry point
 fn send_via<T: Message>(
-    cell: &ActorCell,
+    ctx: &Ctx,
     via: u8,
     m: T,
     with_port: impl FnOnce(T, RpcReplyPort<u64>) -> T,
 ) -> Result<(), MessagingErr<T>> {
+    let cell = ctx.cell();
     let typed: ActorRef<T> = cell.clone().into();
+    let in_rt = tokio::runtime::Handle::try_current().is_ok();
+    let via = if via >= 7 && !(in_rt && ctx.fwd.get().is_some()) { 3 } else { via };
     match via {
+        7 => typed
+            .call_and_forward(|p| with_port(m, p), ctx.fwd.get().unwrap(), |_: u64| (), None)
+            .map(|_h| ()),
+        8 => ractor::rpc::call_and_forward(
+            cell,
+            |p| with_port(m, p),
+            ctx.fwd.get().unwrap().get_cell(),
+            |_: u64| (),
+            None,
+        )
+        .map(|_h| ()),
+        9 => {
+            let slot = std::cell::RefCell::new(Some((m, with_port)));
+            let refs = [typed.clone()];
+            let fut = ractor::rpc::multi_call(
+                &refs,
+                |p| {
+                    let (m, f) = slot.borrow_mut().take().expect("one target");
+                    f(m, p)
+                },
+                None,
+            );
+            match fut.now_or_never() {
+                None | Some(Ok(_)) => Ok(()),
+                Some(Err(e)) => Err(e),
+            }
+        }
         1 => typed.send_message(m),
         2 => typed.cast(m),
         3 => call_once(typed.call(|p| with_port(m, p), None)),
@@ -277,11 +347,11 @@ fn perform(ctx: &Arc<Ctx>, c: &Call, gate: Option<Arc<Gate>>) {
         Call::Send(spec) => {
             ctx.ev(format!("EBegin {} {}", spec.pid, coq_bool(spec.wrong)));
             let r = if spec.wrong {
-                let r = send_via(ctx.cell(), spec.via, Wrong(spec.pid, None), |m, p| Wrong(m.0, Some(p)));
+                let r = send_via(ctx, spec.via, Wrong(spec.pid, None), |m, p| Wrong(m.0, Some(p)));
                 res_term(&r, |m| m.0)
             } else {
                 let m = HMsg { spec: spec.clone(), ctx: ctx.clone(), gate, reply: None };
-                let r = send_via(ctx.cell(), spec.via, m, |mut m, p| {
+                let r = send_via(ctx, spec.via, m, |mut m, p| {
                     m.reply = Some(p);
                     m
                 });
@@ -312,6 +382,14 @@ impl Actor for Target {
     type State = ();
     type Arguments = ();
     async fn pre_start(&self, _: ActorRef<HMsg>, _: ()) -> Result<(), ActorProcessingErr> {
+        Ok(())
+    }
+    async fn post_stop(&self, _: ActorRef<HMsg>, _: &mut ()) -> Result<(), ActorProcessingErr> {
+        // the loop has been left and Stopping published; the ports are still alive
+        let ps: Vec<usize> = self.0.ps.lock().unwrap().clone();
+        for n in ps {
+            self.0.release(n);
+        }
         Ok(())
     }
     async fn handle(&self, _: ActorRef<HMsg>, m: HMsg, _: &mut ()) -> Result<(), ActorProcessingErr> {
@@ -375,22 +453,28 @@ struct Started {
 }
 
 async fn run_case(line: &str) -> String {
-    let ctx = Arc::new(Ctx { cell: OnceLock::new(), log: Mutex::new(Vec::new()) });
+    let ctx = Ctx::new();
     let (sup, _sh) = Actor::spawn(None, Sup(ctx.clone()), ()).await.expect("sup");
     let (actor, _ah) = Actor::spawn_linked(None, Target(ctx.clone()), (), sup.get_cell())
         .await
         .expect("target");
     let _ = ctx.cell.set(actor.get_cell());
+    let _ = ctx.fwd.set(sup.clone());
     quiesce().await;
-    let mut started: Vec<Started> = Vec::new();
-    let mut hang = false;
-    for a in line.split(';') {
-        let a = a.trim();
-        if a.is_empty() {
-            continue;
+    let actions: Vec<(&str, &str)> = line
+        .split(';')
+        .map(|a| a.trim())
+        .filter(|a| !a.is_empty())
+        .map(|a| a.split_once(' ').unwrap_or((a, "")))
+        .collect();
+    for (kw, rest) in &actions {
+        if *kw == "ps" {
+            ctx.ps.lock().unwrap().push(rest.trim().parse().expect("ps index"));
         }
-        let (kw, rest) = a.split_once(' ').unwrap_or((a, ""));
+    }
+    for (kw, rest) in actions {
         match kw {
+            "ps" => {}
             "do" => perform(&ctx, &parse_call(rest), None),
             "start" => {
                 let call = parse_call(rest);
@@ -406,40 +490,21 @@ async fn run_case(line: &str) -> String {
                     Ok(Evt::Parked) => true,
                     Ok(Evt::Done) => false,
                     Err(_) => {
-                        hang = true;
+                        ctx.hang.store(true, std::sync::atomic::Ordering::SeqCst);
                         false
                     }
                 };
-                started.push(Started { release: rtx, evt: erx, handle: Some(h), parked });
+                ctx.started.lock().unwrap().push(Started { release: rtx, evt: erx, handle: Some(h), parked });
             }
-            "rel" => {
-                let n: usize = rest.trim().parse().expect("rel index");
-                if let Some(t) = started.get_mut(n) {
-                    if t.parked {
-                        t.parked = false;
-                        let _ = t.release.send(());
-                        match t.evt.recv_timeout(Duration::from_secs(30)) {
-                            Ok(Evt::Done) => {}
-                            _ => hang = true,
-                        }
-                    }
-                    if let Some(h) = t.handle.take() {
-                        let _ = h.join();
-                    }
-                }
-            }
+            "rel" => ctx.release(rest.trim().parse().expect("rel index")),
             "run" => quiesce().await,
             other => panic!("unknown action {other:?}"),
         }
     }
     // never leave a thread parked
-    for t in started.iter_mut() {
-        if t.parked {
-            let _ = t.release.send(());
-        }
-        if let Some(h) = t.handle.take() {
-            let _ = h.join();
-        }
+    let n = ctx.started.lock().unwrap().len();
+    for k in 0..n {
+        ctx.release(k);
     }
     let status = ctx.cell().get_status() as u8;
     let log = ctx.log.lock().unwrap().clone();
@@ -447,7 +512,7 @@ async fn run_case(line: &str) -> String {
     actor.kill();
     sup.stop(None);
     quiesce().await;
-    if hang {
+    if ctx.hang.load(std::sync::atomic::Ordering::SeqCst) {
         return "HANG".to_string();
     }
     format!("({}, {})", coq_list(&log), status)
@@ -464,7 +529,7 @@ fn stress(rest: &str) -> String {
     let (senders, per, after, mode) = (w[0], w[1], w[2], w[3]);
     let rt = tokio::runtime::Builder::new_multi_thread().worker_threads(2).enable_all().build().unwrap();
     rt.block_on(async move {
-        let ctx = Arc::new(Ctx { cell: OnceLock::new(), log: Mutex::new(Vec::new()) });
+        let ctx = Ctx::new();
         let (sup, _sh) = Actor::spawn(None, Sup(ctx.clone()), ()).await.expect("sup");
         let (actor, ah) = Actor::spawn_linked(None, Target(ctx.clone()), (), sup.get_cell())
             .await
